@@ -329,6 +329,9 @@ def run(R, tier):
             if prev is not None and d <= 5 and rng.random() < p_extra / 2:
                 div_oracle(R, alg, spec, prev, items, exact)
                 R.count('binary-div')
+                if rng.random() < 0.5:          # a numerator that stores no blade (e.g. the square of a null vector): 0 / b = 0 * b.inv()
+                    div_oracle(R, alg, spec, [], items, exact)
+                    R.count('binary-div-empty-numerator')
             prev = items
             # ---- model tie -------------------------------------------------------------------------
             if outcome == 'violation':
